@@ -293,7 +293,7 @@ func Alphabet(t *Type, reduced bool) []*V {
 			// (the null member of a nullable union has its own position in the union's alphabet: not here)
 			pick := func(i int) *V {
 				for ; i > 0; i-- {
-					if !(e[i].T.Base().Kind == Union && e[i].Alias == "") {
+					if !holdsNullMember(e[i]) {
 						return e[i]
 					}
 				}
@@ -522,4 +522,34 @@ func At(v *V, path []string) *V {
 		}
 	}
 	return v
+}
+
+// holdsNullMember reports whether a union holding its null member occurs anywhere in v (such values run into the
+// recorded null-union findings under their own labels; container alphabets avoid re-reporting them under new ones).
+func holdsNullMember(v *V) bool {
+	if v == nil {
+		return false
+	}
+	if v.T != nil && v.T.Base().Kind == Union && v.Alias == "" {
+		return true
+	}
+	if holdsNullMember(v.Mem) {
+		return true
+	}
+	for _, f := range v.Fields {
+		if holdsNullMember(f) {
+			return true
+		}
+	}
+	for _, f := range v.Items {
+		if holdsNullMember(f) {
+			return true
+		}
+	}
+	for _, f := range v.Ent {
+		if holdsNullMember(f) {
+			return true
+		}
+	}
+	return false
 }
